@@ -177,6 +177,8 @@ main(int argc, char *argv[])
 			break;
 		len += r;
 	}
+	if (r < 0)
+		logs("stdin-error\n");	/* e.g. EBADF: descriptor 0 is closed or not readable */
 	snprintf(path, sizeof(path), "stdin %zu\n", len);
 	logs(path);
 
